@@ -33,6 +33,13 @@ def run(tier, seed):
     rdir = os.path.join(chk.workdir, "rel")
     vlib.drive(rel, "verify", sets=87, seed=seed, nacc=1, nrand=0, stress=1, out=rdir)
     n2, mism2 = common.validate_f(chk, {87: os.path.join(rdir, "verify_87.ndjson")}, nproc=8, key_of=keyf)
+    # a build for the host CPU (-C target-cpu=native): code under cfg(target_feature = ...) exists only there
+    nat = vlib.build_harness("release", native=True)
+    ndir = os.path.join(chk.workdir, "native")
+    nset = (44, 65, 87)[seed % 3]
+    vlib.drive(nat, "verify", sets=nset, seed=seed + 7, nacc=1, nrand=2, stress=0, out=ndir)
+    n3, _ = common.validate_f(chk, {nset: os.path.join(ndir, "verify_%d.ndjson" % nset)}, nproc=8, key_of=keyf)
+    n2 += n3
     # malformed / perturbed signatures through the public API only, on the library built with and without the hooks
     mal = common.api_traces(chk, rel, "malformed", nbase=4 if tier == "quick" else 40)
     common.validate_api(chk, {"malformed-%d" % s: p for s, p in mal.items()}, key_of=lambda e: "verify:malformed")
